@@ -78,6 +78,10 @@ def run(repo, rep):
     from . import c12 as _c12
 
     rep.run_borrowed(_c12, {"C12-d": "C13-ab"}, repo, only_sites=("_get_ifm_to_fuse",))
+    rep.clause("C13-ae", "the HillClimb search never draws from an empty candidate range: per-trial state of ranges an aborted trial did not reach is re-initialised [rule shared with C05-g]")
+    from . import c05 as _c05
+
+    rep.run_borrowed(_c05, {"C05-g": "C13-ae"}, repo)
 
 
 # ------------------------------------------------------------------ a
